@@ -426,9 +426,13 @@ pub fn run_job(w: &World, j: &PJob) -> Option<(String, Value)> {
         match vw::try_legacy(w, &req, &j.picks, &j.self_att, 0) {
             Ok((p, provs, agg)) => {
                 let text = serde_json::to_string(&p).unwrap();
-                let p2: anoncreds::data_types::presentation::Presentation = serde_json::from_str(&text).ok()?;
-                let v = vw::verify_legacy(&p2, &req, &bctx);
                 let doc: Value = serde_json::from_str(&text).unwrap();
+                // a serde hop: what a remote verifier receives; when the library cannot read back what it wrote the
+                // remote verifier has nothing to accept
+                let v = match serde_json::from_str::<anoncreds::data_types::presentation::Presentation>(&text) {
+                    Ok(p2) => vw::verify_legacy(&p2, &req, &bctx),
+                    Err(_) => "err",
+                };
                 (format!("(ok {})", vw::legacy_sexp(w, &doc, &provs, &agg)), Some(doc), Some(v))
             }
             Err(e) => (format!("({})", e), None, None),
